@@ -207,3 +207,28 @@ class ValueStringImpl(FnContract):
 
 VALUE_STRING_IMPL = ValueStringImpl()
 VALUE_STRING_IMPL.callee_contracts = {'value.value_json': BASE['value.value_json']}
+
+VALUE_COMPARE_WITNESS = """
+import datetime
+from bare_script.value import value_compare
+bad = []
+tz = datetime.timezone(datetime.timedelta(hours=5))
+naive = datetime.datetime(2020, 1, 1, 12)
+aware = naive.astimezone().astimezone(tz)
+vals = [None, False, True, 0, 1, 1.0, 2.5, '', 'a', 'b', naive, aware, datetime.date(2020, 1, 1), [], [1], [1, 2], [1.0], {}, {'a': 1}, {'a': 2}, len]
+for a in vals:
+    for b in vals:
+        try:
+            ab, ba = value_compare(a, b), value_compare(b, a)
+        except Exception as exc:
+            bad.append({'left': repr(a), 'right': repr(b), 'observed': type(exc).__name__ + ': ' + str(exc)[:60]})
+            continue
+        if ab not in (-1, 0, 1) or ab != -ba:
+            bad.append({'left': repr(a), 'right': repr(b), 'observed': [ab, ba], 'expected': 'antisymmetric sign'})
+if value_compare(naive, aware) != 0:
+    bad.append({'what': 'the same instant in two zones compares equal', 'observed': value_compare(naive, aware)})
+if value_compare(1, 1.0) != 0 or value_compare([1], [1.0]) != 0 or value_compare(None, False) != -1 or value_compare(1, True) != 1:
+    bad.append({'what': 'spelling / null first / type-name fallback'})
+result = {'violates': bool(bad), 'counterexamples': bad[:2]}
+"""
+ValueCompare.native_witness = {'is-CMP': VALUE_COMPARE_WITNESS, 'no-exception': VALUE_COMPARE_WITNESS}
